@@ -149,6 +149,68 @@ class Checker(CommandMixin):
                 self.v("C03", "duplicate-nameplate-rows", ev, "two nameplate rows for %r" % (k,))
             seen.add(k)
 
+    def _on_died(self, ev):
+        """the server process died in the middle of this command: nothing about the command is
+        judged; the monitors take over what the files hold (the committed prefix of its effects)"""
+        self.probes["crash_mid_command"] += 1
+        for c in ev.c09:
+            self.v("C09", "committed-before-frame", ev,
+                   "frame %r to conn %s emitted while %s database had uncommitted changes (reader differs)"
+                   % (c["frame"], c["conn"], c["db"]))
+        pre, post = ev.pre, ev.post
+        if pre is None or post is None:
+            return
+        if post.key() != pre.key():
+            self.probes["crash_left_partial_effects"] += 1
+        self._track_incarnations(pre, post, ev)
+        cm = self.conns.get(ev.conn)
+        msg = ev.msg if isinstance(ev.msg, dict) else {}
+        # the side arrived as far as the rows say so (arrival order is the order of the rows)
+        for m in post.mailboxes:
+            k = (m.app, m.id)
+            rec = self.mb_inc.get(k)
+            m0 = pre.mb(*k)
+            if rec is None or m0 is None:
+                continue
+            had = set(r.side for r in m0.sides)
+            for r in m.sides:
+                if r.side not in had:
+                    if r.side not in rec["attempted"]:
+                        rec["attempted"].append(r.side)
+                    if r.side not in rec["admitted"] and len(rec["admitted"]) < 2:
+                        rec["admitted"].append(r.side)
+            if m0.updated != m.updated or len(m.sides) != len(m0.sides) or len(m.msgs) != len(m0.msgs):
+                self._touch(k, ev.wall, True)
+            before = Counter(tuple(x[:4]) for x in m0.msgs)
+            after = Counter(tuple(x[:4]) for x in m.msgs)
+            for x in (after - before).elements():
+                rec["adds"].append(x)
+        for n in post.nameplates:
+            k = (n.app, n.name)
+            rec = self.np_inc.get(k)
+            n0 = pre.np(*k)
+            if rec is None or n0 is None or n0.mailbox != n.mailbox:
+                continue
+            had = set(r.side for r in n0.sides)
+            for r in n.sides:
+                if r.side not in had:
+                    if r.side not in rec["attempted"]:
+                        rec["attempted"].append(r.side)
+                    if r.side not in rec["admitted"] and len(rec["admitted"]) < 2:
+                        rec["admitted"].append(r.side)
+        if cm is not None and cm.bound and msg.get("type") in ("claim", "open", "close", "allocate"):
+            # an attempt is an attempt even if no row tells of it
+            app, side = cm.app, cm.side
+            if msg["type"] == "claim" and isinstance(msg.get("nameplate"), str):
+                n = post.np(app, msg["nameplate"])
+                self._attempt((app, n.mailbox) if n is not None else None, (app, msg["nameplate"]), side)
+            elif msg["type"] in ("open", "close"):
+                mid = msg.get("mailbox", cm.named)
+                if isinstance(mid, str):
+                    self._attempt((app, mid), None, side)
+        if ev.conn is not None:
+            self._conn_dead(ev.conn, ev.wall)
+
     # ------------------------------------------------------- universal checks
     def _universal(self, ev):
         for (c, f) in ev.frames:
@@ -230,6 +292,9 @@ class Checker(CommandMixin):
         n0 = len(self.viol)
         kind = ev.kind
         self.cur_t = ev.t
+        if ev.notes.get("died_at"):
+            self._on_died(ev)
+            return
         self._universal(ev)
         if ev.post is not None:
             self.shapes.add(ev.post.shape())
